@@ -31,10 +31,12 @@ NextD == /\ Len(hist) < Depth
               /\ hist' = Append(hist, op) /\ stk' = DecStep(stk, op)
               /\ PrintT(ToJson([k |-> "dec", n |-> N, ops |-> hist']))
 NextH == /\ hist = <<>>
-         /\ \E ln \in 0..16, pre \in 0..3 :
+         \* via: how the input is held -- its own array, a prefix of a longer array (bytes beyond the input exist in memory, as in a
+         \* receive buffer), or a slice decoder over a window of an enclosing message
+         /\ \E ln \in 0..16, pre \in 0..3, via \in {"exact", "prefix", "slice"} :
               /\ pre <= ln
-              /\ hist' = <<ln, pre>> /\ UNCHANGED stk
-              /\ PrintT(ToJson([k |-> "hdr", n |-> ln, pre |-> pre]))
+              /\ hist' = <<ln, pre, via>> /\ UNCHANGED stk
+              /\ PrintT(ToJson([k |-> "hdr", n |-> ln, pre |-> pre, via |-> via]))
 Next == CASE Family = "E" -> NextE [] Family = "D" -> NextD [] Family = "H" -> NextH
 Spec == Init /\ [][Next]_vars
 
